@@ -116,15 +116,28 @@ Qed.
 Definition dot : ascii := "."%char.
 Lemma dot_not_digit : is_digit dot = false. Proof. reflexivity. Qed.
 
+Lemma tail_ok_stops t : tail_ok t = true -> stops t.
+Proof.
+  destruct t as [|c r]; cbn; [trivial|]. intros H. apply andb_prop in H. destruct H as [H _].
+  apply orb_prop in H. destruct H as [H|H]; apply Ascii.eqb_eq in H; subst c; reflexivity.
+Qed.
+
+Lemma tail_ok_not_dot c r : tail_ok (c :: r) = true -> Ascii.eqb c "."%char = false.
+Proof.
+  cbn. intros H. apply andb_prop in H. destruct H as [H _].
+  apply orb_prop in H. destruct H as [H|H]; apply Ascii.eqb_eq in H; subst c; reflexivity.
+Qed.
+
 (* a full "a.b.c<suffix>" string parses to exactly the numeric triple *)
 Lemma parse_full_triple d1 d2 d3 suffix :
   all_digits d1 -> all_digits d2 -> all_digits d3 ->
-  d1 <> [] -> d2 <> [] -> d3 <> [] -> stops suffix ->
+  d1 <> [] -> d2 <> [] -> d3 <> [] -> tail_ok suffix = true ->
   digits_value d1 <= INT_MAX -> digits_value d2 <= INT_MAX -> digits_value d3 <= INT_MAX ->
   parse_loop 3 0 (d1 ++ dot :: d2 ++ dot :: d3 ++ suffix) sem0 =
   {| major := digits_value d1; minor := digits_value d2; patch := digits_value d3; valid := true |}.
 Proof.
-  intros A1 A2 A3 N1 N2 N3 Hs L1 L2 L3.
+  intros A1 A2 A3 N1 N2 N3 Ht L1 L2 L3.
+  pose proof (tail_ok_stops _ Ht) as Hs.
   assert (Hst : forall d, digits_value d <= INT_MAX -> stoi d = Some (digits_value d)).
   { intros d Hd. unfold stoi. destruct (Z.leb_spec (digits_value d) INT_MAX); [reflexivity|lia]. }
   cbn [parse_loop].
@@ -137,8 +150,59 @@ Proof.
   rewrite (span_digits_app d3) by auto.
   destruct d3 as [|c3 d3]; [congruence|]. rewrite (Hst _ L3). cbn [set_comp major minor patch].
   destruct suffix as [|c s]; [reflexivity|].
-  destruct (Ascii.eqb c "."); reflexivity.
+  rewrite (tail_ok_not_dot _ _ Ht), Ht. reflexivity.
 Qed.
+
+(* ---------- exactly which strings are versions ---------- *)
+(* [shape n s]: s is one to n dot-separated non-empty digit runs, each fitting an int, followed by nothing or by a
+   '-'/'+' suffix of letters, digits, '.', '-', '+' *)
+Inductive shape : nat -> list ascii -> Prop :=
+| shape_last f ds tail : all_digits ds -> ds <> [] -> stoi ds <> None -> tail_ok tail = true -> shape (S f) (ds ++ tail)
+| shape_more f ds r : all_digits ds -> ds <> [] -> stoi ds <> None -> shape (S f) r -> shape (S (S f)) (ds ++ dot :: r).
+
+Lemma span_digits_spec s : let (ds, rest) := span_digits s in s = ds ++ rest /\ all_digits ds /\ stops rest.
+Proof.
+  induction s as [|c r IH]; cbn; [repeat split; constructor|].
+  destruct (is_digit c) eqn:Hc.
+  - destruct (span_digits r) as [d t]. destruct IH as (E & Hd & Hs). repeat split; [cbn; congruence|constructor; assumption|assumption].
+  - repeat split; [constructor|]. cbn. exact Hc.
+Qed.
+
+Lemma set_comp_valid idx v a : valid (set_comp idx v a) = true.
+Proof. destruct idx as [|[|idx]]; reflexivity. Qed.
+
+Lemma parse_loop_valid_shape f : forall idx s acc, valid (parse_loop (S f) idx s acc) = true -> shape (S f) s.
+Proof.
+  induction f as [|f IH]; intros idx s acc H; cbn [parse_loop] in H;
+    pose proof (span_digits_spec s) as Hsp; destruct (span_digits s) as [ds rest]; destruct Hsp as (-> & Hd & Hst);
+    (destruct ds as [|d ds]; [discriminate|]);
+    (destruct (stoi (d :: ds)) as [v|] eqn:Hv; [|discriminate]);
+    (destruct rest as [|c rest]; [apply shape_last; [assumption|discriminate|congruence|reflexivity]|]);
+    destruct (Ascii.eqb c "."%char) eqn:Hc.
+  - discriminate.
+  - destruct (tail_ok (c :: rest)) eqn:Ht; [|discriminate].
+    apply shape_last; [assumption|discriminate|congruence|assumption].
+  - apply Ascii.eqb_eq in Hc. subst c.
+    apply shape_more; [assumption|discriminate|congruence|]. exact (IH _ _ _ H).
+  - destruct (tail_ok (c :: rest)) eqn:Ht; [|discriminate].
+    apply shape_last; [assumption|discriminate|congruence|assumption].
+Qed.
+
+Lemma shape_parse_loop_valid n s : shape n s -> forall idx acc, valid (parse_loop n idx s acc) = true.
+Proof.
+  induction 1 as [f ds tail Hd Hn Hs Ht | f ds r Hd Hn Hs Hsh IH]; intros idx acc; cbn [parse_loop].
+  - rewrite (span_digits_app ds tail Hd (tail_ok_stops _ Ht)).
+    destruct ds as [|d ds]; [congruence|]. destruct (stoi (d :: ds)) as [v|]; [|congruence].
+    destruct tail as [|c t]; [apply set_comp_valid|].
+    rewrite (tail_ok_not_dot _ _ Ht), Ht. apply set_comp_valid.
+  - rewrite (span_digits_app ds (dot :: r) Hd dot_not_digit).
+    destruct ds as [|d ds]; [congruence|]. destruct (stoi (d :: ds)) as [v|]; [|congruence].
+    change (Ascii.eqb dot ".") with true. cbn iota. apply IH.
+Qed.
+
+(* a string is a version exactly when it has the shape: up to three components, then nothing or a suffix *)
+Theorem parse_valid_iff_shape s : valid (parse_loop 3 0 s sem0) = true <-> shape 3 s.
+Proof. split; [apply parse_loop_valid_shape | intros H; apply shape_parse_loop_valid; exact H]. Qed.
 
 (* every component the parser stores is an int, and a result is valid only if a digit run was read *)
 Definition comp_ok (s : semver) : Prop :=
@@ -161,12 +225,14 @@ Proof.
   induction fuel as [|f IH]; intros idx s acc Hacc; cbn [parse_loop]; [assumption|].
   pose proof (span_digits_all s) as Hall.
   destruct (span_digits s) as [ds rest]; cbn [fst] in Hall.
-  destruct ds as [|d ds]; [assumption|].
+  destruct ds as [|d ds]; [apply sem0_ok|].
   destruct (stoi (d :: ds)) as [v|] eqn:Hv; [|apply sem0_ok].
   pose proof (stoi_range _ _ Hall Hv) as Hr.
   pose proof (set_comp_ok idx v acc Hacc Hr) as Hok.
   destruct rest as [|c rest]; [assumption|].
-  destruct (Ascii.eqb c "."%char); [apply IH|]; assumption.
+  destruct (Ascii.eqb c "."%char).
+  - destruct f as [|f']; [apply sem0_ok|]. apply IH. assumption.
+  - destruct (tail_ok (c :: rest)); [assumption|apply sem0_ok].
 Qed.
 
 Lemma parse_semver_components_int s : comp_ok (parse_semver s).
@@ -232,6 +298,21 @@ Proof.
       * intros H l' h Hin. apply H. right. assumption.
 Qed.
 
+(* an archive goes on to be installed only when checksums.txt was obtained, its first line naming exactly this asset
+   carries a digest, and that digest (hex digits in either case) is the archive's *)
+Lemma verified_only_against_the_listed_line content asset actual :
+  checksum_verdict content asset actual = Verified ->
+  exists c h pre l post, content = Some c /\ lines c = pre ++ l :: post /\ line_entry l = Some (h, asset) /\
+    (forall l', In l' pre -> forall h', line_entry l' <> Some (h', asset)) /\ map lower h = actual.
+Proof.
+  unfold checksum_verdict. destruct content as [c|]; [|discriminate].
+  unfold parse_checksum. destruct (find_checksum (lines c) asset) as [h|] eqn:E; [|discriminate].
+  destruct (ascii_list_eqb (map lower h) actual) eqn:Eh; [|discriminate]. intros _.
+  apply ascii_list_eqb_eq in Eh. apply find_checksum_sound in E. destruct E as (pre & l & post & E1 & E2 & E3).
+  exists c, h, pre, l, post. auto.
+Qed.
+
+
 (* ---------- notice throttling ---------- *)
 Definition ln (d : option cache) : Z := match d with Some c => lastNotified c | None => 0 end.
 
@@ -269,6 +350,7 @@ Lemma check_step disk i ns disk' :
   (ns = [now i] /\ skip_env i = false /\ WINDOW <= now i - ln disk /\ ln disk' = now i).
 Proof.
   unfold check_for_updates. destruct (skip_env i) eqn:Hs; [intros [= <- <-]; auto|].
+  destruct (writable i) eqn:Hw; cbn [negb]; [|intros [= <- <-]; auto].
   destruct disk as [c0|]; cbn [ln];
     [destruct (expired (lastChecked c0) (now i)); cbn [negb];
      destruct (latestV c0) as [|l0 lr] eqn:Hlv|];
@@ -308,6 +390,9 @@ Qed.
 
 Lemma skip_env_silent disk i : skip_env i = true -> check_for_updates disk i = ([], disk).
 Proof. unfold check_for_updates. intros ->. reflexivity. Qed.
+
+Lemma unwritable_silent disk i : writable i = false -> check_for_updates disk i = ([], disk).
+Proof. unfold check_for_updates. intros ->. destruct (skip_env i); reflexivity. Qed.
 
 Lemma notice_implies_newer latest cur t c c' :
   maybe_notice latest cur t c = (true, c') ->
